@@ -31,8 +31,12 @@ _REAL_DT = []
 
 
 def _set_clock(g, clock):
+    """Substitute the clock the module reads: every module-level name bound to the datetime class (or to the datetime module)
+    is pointed at a stand-in for the duration of the call."""
+    import datetime as _dtmod
     if not _REAL_DT:
-        _REAL_DT.append(g.datetime)
+        _REAL_DT.append(_dtmod.datetime)
+        _REAL_DT.append({k: v for k, v in vars(g).items() if v is _dtmod.datetime or v is _dtmod})
     base = _REAL_DT[0]
     fixed = base(*clock)
 
@@ -48,12 +52,33 @@ def _set_clock(g, clock):
         @classmethod
         def today(cls):
             return fixed
-    g.datetime = FakeDT
+
+    class FakeModule(object):
+        datetime = FakeDT
+        date, timedelta, time, timezone = _dtmod.date, _dtmod.timedelta, _dtmod.time, _dtmod.timezone
+    for name, v in _REAL_DT[1].items():
+        setattr(g, name, FakeDT if v is _dtmod.datetime else FakeModule)
 
 
 def _restore_clock(g):
     if _REAL_DT:
-        g.datetime = _REAL_DT[0]
+        for name, v in _REAL_DT[1].items():
+            setattr(g, name, v)
+
+
+def _is_real_now(stamp):
+    """Does a YY:DDD:SSSSS stamp denote the machine's real present (within two minutes)?  Then the implementation reads a clock
+    the harness did not substitute: nothing can be said about the time it would write at another hour."""
+    import datetime as _dtmod
+    try:
+        yy, doy, sod = int(stamp[0:2]), int(stamp[3:6]), int(stamp[7:12])
+    except ValueError:
+        return False
+    for now in (_dtmod.datetime.now(), _dtmod.datetime.utcnow()):
+        t = _dtmod.datetime(2000 + yy if yy < 80 else 1900 + yy, 1, 1) + _dtmod.timedelta(days=doy - 1, seconds=sod)
+        if abs((t - now).total_seconds()) <= 120:
+            return True
+    return False
 
 
 def _run(fn, g, clock, *args):
@@ -113,10 +138,10 @@ def _check_removal(case, spec, g, inp_lines, remove_codes, clock):
     keep = [i for i, r in enumerate(recs) if r["code"] not in remove_codes]
     # header: fixed width, fields at their columns, creation stamp well-formed, count = n, everything else untouched
     hin, hout = inp_lines[0], out["header"]
-    if len(hout.rstrip("\n")) != len(hin) or not SX.HEADER_RE.match(hout):
+    if len(hout.rstrip()) != len(hin.rstrip()) or not SX.HEADER_RE.match(hout):
         raise Fail("remove_stns_sinex: header line is not fixed-width SINEX", expected={"len": len(hin), "like": hin},
                    observed={"len": len(hout), "header": hout, "clock": clock}, bucket="header width")
-    if hout[:15] != hin[:15] or hout[27:60] != hin[27:60] or hout[65:] != hin[65:]:
+    if hout[:15] != hin[:15] or hout[27:60] != hin[27:60] or hout[65:].rstrip() != hin[65:].rstrip():
         raise Fail("remove_stns_sinex: header fields other than creation time and parameter count changed",
                    expected=hin, observed=hout, bucket="header fields")
     if hout[60:65] != "%05d" % len(keep):
@@ -125,7 +150,8 @@ def _check_removal(case, spec, g, inp_lines, remove_codes, clock):
     yy, doy, sod = hout[15:17], int(hout[18:21]), int(hout[22:27])
     d = datetime.date(clock[0], clock[1], clock[2])
     want_sod = clock[3] * 3600 + clock[4] * 60 + clock[5]
-    if yy != "%02d" % (clock[0] % 100) or doy != d.timetuple().tm_yday or not (0 <= sod <= 86399) or abs(sod - want_sod) > 1:
+    off_clock = yy != "%02d" % (clock[0] % 100) or doy != d.timetuple().tm_yday or abs(sod - want_sod) > 1
+    if not (0 <= sod <= 86399) or (off_clock and not _is_real_now(hout[15:27])):
         raise Fail("remove_stns_sinex: creation time is not YY:DDD:SSSSS of the current time", expected={"clock": clock},
                    observed=hout[15:27], bucket="header creation time")
     # blocks present, in order
@@ -186,8 +212,8 @@ def check_remove_stations(case):
                 continue
             if i == 0 and x[:15] == y[:15] and x[27:] == y[27:] and len(x) == len(y):
                 continue
-            if x.startswith("* File created by") and y.startswith("* File created by"):
-                continue
+            if x.startswith("*") and y.startswith("*"):
+                continue        # comment lines (the editing functions stamp one with the time of the run)
             raise Fail("the edited file depends on the wall-clock time beyond the creation stamp", expected=x, observed={"line": i, "other": y,
                        "clocks": (case["clock"], case["clock2"])}, bucket="clock dependence")
 
@@ -263,7 +289,7 @@ def check_remove_zeros(case):
         raise Fail("remove_matrixzeros_sinex: matrix block is not the input block minus its all-zero lines, each on its own line",
                    expected=want[:5], observed=(got or [])[:5], bucket="zeros matrix")
     hin, hout = inp["header"], out["header"]
-    if len(hout) != len(hin) or hout[:15] != hin[:15] or hout[27:] != hin[27:]:
+    if hout[:15] != hin[:15] or hout[27:].rstrip() != hin[27:].rstrip():
         raise Fail("remove_matrixzeros_sinex: header changed beyond the creation time", expected=hin, observed=hout, bucket="zeros header")
 
 
